@@ -2368,10 +2368,16 @@ func (lexer *Lexer) tryToDecodeEscapeSequences(start int, text string, reportErr
 						isFirst = false
 					}
 
-					if isOutOfRange && reportErrors {
-						lexer.addRangeError(logger.Range{Loc: logger.Loc{Start: int32(start + hexStart)}, Len: int32(i - hexStart)},
-							"Unicode escape sequence is out of range")
-						panic(LexerPanic{})
+					if isOutOfRange {
+						if reportErrors {
+							lexer.addRangeError(logger.Range{Loc: logger.Loc{Start: int32(start + hexStart)}, Len: int32(i - hexStart)},
+								"Unicode escape sequence is out of range")
+							panic(LexerPanic{})
+						}
+
+						// This is an invalid escape sequence (the cooked value of a
+						// tagged template literal containing it is "undefined")
+						return nil, false, start + hexStart
 					}
 				} else {
 					// Fixed-length
